@@ -58,6 +58,7 @@ type Term struct {
 	Val  uint64 // constant value; for OExtract: lo ; for OSext: unused
 	Hi   int    // OExtract hi
 	Name string // OVar / OUF
+	epoch int
 }
 
 func (t *Term) IsConst() bool { return t.Op == OConst }
@@ -81,10 +82,17 @@ type Store struct {
 	False *Term
 	Vars  []*Term
 	bytes [256]*Term
+	epoch int
+}
+
+// NewEpoch starts a new path: the variable list is reset, terms are kept.
+func (s *Store) NewEpoch() {
+	s.epoch++
+	s.Vars = nil
 }
 
 func NewStore() *Store {
-	s := &Store{tab: map[tkey]*Term{}, stab: map[string]*Term{}}
+	s := &Store{tab: make(map[tkey]*Term, 1<<12), stab: map[string]*Term{}}
 	s.True = s.mk(tkey{op: OConst, w: 0, val: 1}, nil)
 	s.False = s.mk(tkey{op: OConst, w: 0, val: 0}, nil)
 	return s
@@ -151,11 +159,14 @@ func (s *Store) Bool(b bool) *Term {
 
 func (s *Store) Var(name string, w int) *Term {
 	k := tkey{op: OVar, w: w, name: name}
-	if t, ok := s.tab[k]; ok {
-		return t
+	t, ok := s.tab[k]
+	if !ok {
+		t = s.mk(k, nil)
 	}
-	t := s.mk(k, nil)
-	s.Vars = append(s.Vars, t)
+	if t.epoch != s.epoch {
+		t.epoch = s.epoch
+		s.Vars = append(s.Vars, t)
+	}
 	return t
 }
 
